@@ -42,6 +42,42 @@ SPECS = {
         ("src/sqpack/index.rs", "FolderEntry"),
         ("src/sqpack/index.rs", "SqPackIndex"),
     ],
+    "BinrwFiin": [
+        ("src/fiin.rs", "FIINEntry"),
+        ("src/fiin.rs", "FileInfo"),
+    ],
+    "BinrwTex": [
+        ("src/tex.rs", "TextureAttribute"),
+        ("src/tex.rs", "TextureFormat"),
+        ("src/tex.rs", "TexHeader"),
+    ],
+    "BinrwExcel": [
+        ("src/common.rs", "Language"),
+        ("src/exh.rs", "EXHHeader"),
+        ("src/exh.rs", "ColumnDataType"),
+        ("src/exh.rs", "ExcelColumnDefinition"),
+        ("src/exh.rs", "ExcelDataPagination"),
+        ("src/exh.rs", "EXH"),
+        ("src/exd.rs", "EXDHeader"),
+        ("src/exd.rs", "ExcelDataOffset"),
+        ("src/exd.rs", "ExcelDataRowHeader"),
+        ("src/exd.rs", "EXD"),
+    ],
+    "BinrwDat": [
+        ("src/sqpack/data.rs", "FileType"),
+        ("src/sqpack/data.rs", "StandardFileBlock"),
+        ("src/sqpack/data.rs", "TextureLodBlock"),
+        ("src/sqpack/data.rs", "TextureBlock"),
+        ("src/sqpack/data.rs", "ModelFileBlock"),
+        ("src/sqpack/data.rs", "FileInfo"),
+        ("src/sqpack/data.rs", "Block"),
+        ("src/sqpack/data.rs", "BlockHeader"),
+    ],
+    "BinrwAux": [
+        ("src/cmp.rs", "RacialScalingParameters"),
+        ("src/tera.rs", "PlatePosition"),
+        ("src/tera.rs", "TerrainHeader"),
+    ],
 }
 
 PRIMS = {"u8": 1, "i8": 1, "u16": 2, "i16": 2, "u32": 4, "i32": 4, "f32": 4, "u64": 8, "i64": 8}
@@ -235,6 +271,10 @@ def find_item(src, name):
         r2 = rest.lstrip()
         if r2.startswith("<"):
             return (m.group(1), attrs, None, "generic")
+        mb = re.match(r":\s*(u8|u16|u32|u64|i8|i16|i32|i64)\s*\{", r2)
+        if mb and m.group(1) == "struct":
+            # inside `bitflags! { … }`: the struct is a transparent wrapper of that integer
+            return ("bitflags", attrs, mb.group(1), "{")
         if r2.startswith("{") or r2.startswith("("):
             j = match_close(r2, 0)
             if j < 0:
@@ -344,10 +384,25 @@ def parse_type(t, ds, known, fields):
             return ".enum .%s [%s]" % (it["repr"], ", ".join(str(x) for x in it["valid"]))
         if it["kind"] == "struct":
             return ".struct %s" % it["lean"]
+        if it["kind"] == "alias":
+            return ".prim .%s" % it["prim"]
     raise Unsupported("type `%s`" % t[:40])
 
 
-FIELD_OK = {"little", "big", "magic", "pad_before", "pad_after", "pad_size_to", "count", "temp", "err_context", "dbg"}
+FIELD_OK = {"little", "big", "magic", "pad_before", "pad_after", "pad_size_to", "count", "temp", "err_context", "dbg", "map"}
+
+
+def map_read_type(v):
+    """`map = |x: T| …` or `map = f::<T>`: binrw reads a `T` and applies the (total) function to it;
+    the layout is that of `T`, the function is the model's business.  Anything else is unsupported."""
+    v = v.strip()
+    m = re.match(r"\|\s*(?:mut\s+)?[A-Za-z_]\w*\s*:\s*([^|]+?)\s*\|", v)
+    if m:
+        return " ".join(m.group(1).replace("&", "").split())
+    m = re.fullmatch(r"[A-Za-z_][\w:]*::<\s*([^<>]+?)\s*>", v)
+    if m:
+        return m.group(1)
+    raise Unsupported("map without an explicit read type")
 FIELD_SKIP = {"calc", "try_calc", "ignore", "default"}
 
 
@@ -404,6 +459,9 @@ def parse_struct(attrs, body, bracket, known):
                     f["pst"] = int_lit(v)
             if min(f["pb"], f["pa"], f["pst"]) < 0:
                 raise Unsupported("field `%s`: negative padding" % name)
+            for k, v in ds:
+                if k == "map":
+                    ty = map_read_type(v)
             f["kind"] = parse_type(ty, ds, known, res["fields"])
             res["fields"].append(f)
     except Unsupported as e:
@@ -422,6 +480,8 @@ def lean_name(rust):
 def emit_item(rust, rel, it):
     ln = lean_name(rust)
     out = []
+    if it["kind"] == "alias":
+        return "/-- `bitflags struct %s: %s` (%s): read as that integer -/\ndef %sRepr : Prim := .%s" % (rust, it["prim"], rel, ln, it["prim"])
     if it["kind"] == "enum":
         out.append("/-- `enum %s` (%s), `repr = %s`: valid discriminants as bit patterns -/" % (rust, rel, it["repr"]))
         out.append("def %sRepr : Prim := .%s" % (ln, it["repr"]))
@@ -466,7 +526,9 @@ def generate(module, repo, want_json=False):
             found = find_item(cache[rel], rust)
             if found:
                 kind, attrs, body, bracket = found
-                if kind == "enum":
+                if kind == "bitflags":
+                    it = {"kind": "alias", "prim": body}
+                elif kind == "enum":
                     try:
                         it = parse_enum(attrs, body or "")
                     except Unsupported as e:
